@@ -3,7 +3,8 @@
 (* Bounded instances of MediaInherit.                                      *)
 (*  - AddClass builds every hierarchy of <= MaxN classes from the chosen   *)
 (*    catalogues; Export writes each one as a JSON line together with what *)
-(*    MediaInherit expects for every class (spec -> code replay).          *)
+(*    MediaInherit expects for its last class (spec -> code replay; the    *)
+(*    earlier classes are on the lines of the prefixes).                   *)
 (*  - With MaxAcc > 0 the Access actions of the memo machine run on every  *)
 (*    hierarchy in every order; OrderIndependent / MemoSound / MemoClosed  *)
 (*    are checked, and ImplRefines compares the implementation-shaped      *)
